@@ -7,7 +7,8 @@ EXTENDS LLUDPMini, Json
 CONSTANTS PA,        \* payload alphabet of Fixed / Variable fields
           MaxVar,    \* longest Variable payload
           MaxCount,  \* most instances of a Variable block
-          Tids       \* templates (indices into U) of this run
+          Tids,      \* templates (indices into U) of this run
+          RunLens    \* lengths of the zero runs of part "runs" (around the 255 boundaries of zero-coding)
 VARIABLES tid, m, part
 vars == <<tid, m, part>>
 
@@ -61,12 +62,19 @@ Msgs(T, pt) ==
                                             [flags |-> 128, pid |-> <<0, 2>>, extra |-> <<>>, acks |-> <<>>],
                                             [flags |-> 144, pid |-> <<1, 0>>, extra |-> <<0>>, acks |-> << <<0, 1>> >>]},
                                      bl \in BlocksDom(T, PA, MaxVar, MaxCount, FALSE)}
+      \* part "runs": zero-coded bodies with a zero run of every length in RunLens at the start / in the
+      \* middle / at the end of the body (template TstLow: the two-byte-length field is the last thing in it)
+      [] pt = "runs" -> IF T.name # "TstLow" THEN {}
+                        ELSE {Mk(h, << <<<<I(0, <<p>>)>>, <<I(0, <<p>>)>>>>, << <<Raw(l \o Zeros(n) \o r)>> >> >>) :
+                                 h \in {[flags |-> 128, pid |-> <<0, 2>>, extra |-> <<>>, acks |-> <<>>],
+                                        [flags |-> 144, pid |-> <<1, 0>>, extra |-> <<0>>, acks |-> << <<0, 1>> >>]},
+                                 p \in {0, 258}, l \in {<<>>, <<1>>}, r \in {<<>>, <<1>>}, n \in RunLens}
       [] pt = "fill" -> {Mk(h, bl) : h \in {[flags |-> 0, pid |-> <<0, 1>>, extra |-> <<>>, acks |-> <<>>],
                                             [flags |-> 128, pid |-> <<0, 2>>, extra |-> <<0>>, acks |-> <<>>]},
                                      bl \in {x \in BlocksDom(T, {65}, 1, 1, TRUE) : HasUnset([blocks |-> x])}}
 
 Row == [row |-> "msg", tid |-> tid, t |-> U[tid].name, part |-> part, m |-> m, dgram |-> Datagram(U[tid], m)]
-Init == /\ tid \in Tids /\ part \in {"hdr", "body", "fill"} /\ m \in Msgs(U[tid], part)
+Init == /\ tid \in Tids /\ part \in {"hdr", "body", "fill", "runs"} /\ m \in Msgs(U[tid], part)
         /\ PrintT(ToJson(Row))
 Next == UNCHANGED vars
 Spec == Init /\ [][Next]_vars
